@@ -54,7 +54,7 @@ Theorem cc_swap_refines_generated :
       = (crew_ptr a', count2 a', storage2 a', storage2 a', crew_ptr b', count2 b', storage2 b', storage2 b') /\
     Gen_HashSet2.Swap (crew_ptr a) (count2 a) (count2 a) (storage2 a) (crew_ptr b) (count2 b) (count2 b) (storage2 b)
       = (crew_ptr a', count2 a', count2 a', storage2 a', crew_ptr b', count2 b', count2 b', storage2 b').
-Proof. intros a b. simpl. split; reflexivity. Qed.
+Proof. intros a b. cbv beta iota zeta delta [cc_swap Gen_TreeSet2.Swap Gen_HashSet2.Swap]. split; reflexivity. Qed.
 
 (* ---------------------------------------------------------------- MemPool (fc18ee9) *)
 (* MemPool::Data::Swap ALWAYS exchanges the managers (whatever IsEqual would say) together with the allocation counts;
@@ -90,4 +90,4 @@ Theorem mergeto_empty_destination_is_swap :
   (forall c n r p c' n' r' p',
      let '(sc, sn, sr, sp, dc, dn, dr, dp) := Gen_TreeSet2.Swap c n r p c' n' r' p' in
      (dc, dp) = (c, p) /\ (sc, sp) = (c', p')).
-Proof. split; [reflexivity|]. intros. simpl. split; reflexivity. Qed.
+Proof. split; [reflexivity|]. intros. cbv beta iota zeta delta [Gen_TreeSet2.Swap]. split; reflexivity. Qed.
